@@ -456,7 +456,7 @@ Proof.
     + (* single vector *)
       simpl trace in HF. inversion HF as [|? ? Hl HF']; subst.
       specialize (Hone [buf (heap st) b] (Forall_cons _ Hl (Forall_nil _)) HF').
-      simpl step_ps. destruct (ps_batch N I m L lp fl r (hist st) [buf (heap st) b] []) as [h' out].
+      unfold step_ps. destruct (ps_batch N I m L lp fl r (hist st) [buf (heap st) b] []) as [h' out].
       simpl fst. simpl snd. exact Hone.
     + (* write *)
       simpl step_ps. simpl fst. simpl snd. simpl trace in HF.
@@ -466,7 +466,7 @@ Proof.
     + (* batch *)
       simpl trace in HF. apply Forall_app in HF. destruct HF as [HFv HFr].
       specialize (Hone (map (buf (heap st)) bs) HFv HFr).
-      simpl step_ps. destruct (ps_batch N I m L lp fl r (hist st) (map (buf (heap st)) bs) []) as [h' out].
+      unfold step_ps. destruct (ps_batch N I m L lp fl r (hist st) (map (buf (heap st)) bs) []) as [h' out].
       simpl fst. simpl snd. simpl trace. simpl spec_outputs_ps. rewrite map_map in Hone. exact Hone.
 Qed.
 
